@@ -168,10 +168,16 @@ def watch_labels(ex, fv, args, kwargs, node):
     len() and into the index= argument of a pandas constructor; anything else is recorded."""
     lab_pos = [i for i, a in enumerate(args) if is_label(a)]
     lab_kw = [k for k, a in kwargs.items() if is_label(a)]
+    if isinstance(fv, BoundExt) and is_label(fv.recv) and fv.name in LABEL_LOOKUPS:
+        # positions (or anything else) looked up IN the labels: `columns.get_indexer(icolumns)` treats positions as labels
+        ex.emit("label_use", node, callee=f"{valkey(fv.recv)[:60]}.{fv.name}", args=[valkey(a)[:40] for a in args])
+        return
     if not lab_pos and not lab_kw:
         return
     if isinstance(fv, (FuncV, ClassV, ClosureV)):
         return  # flows into repository code, which is analysed itself
+    if isinstance(fv, ExtV) and fv.dotted == "pandas.Index" and lab_pos == [0] and not lab_kw:
+        return  # pd.Index(labels): the same labels
     name = fv.dotted if isinstance(fv, ExtV) else (f"{valkey(fv.recv)[:60]}.{fv.name}" if isinstance(fv, BoundExt) else valkey(fv)[:80])
     if isinstance(fv, ExtV) and fv.dotted in ("builtins.len", "builtins.isinstance", "builtins.type"):
         return
@@ -183,6 +189,7 @@ def watch_labels(ex, fv, args, kwargs, node):
     ex.emit("label_use", node, callee=name, args=[valkey(a)[:40] for a in args])
 
 
+LABEL_LOOKUPS = {"get_indexer", "get_indexer_for", "get_indexer_non_unique", "get_loc", "isin", "searchsorted", "slice_indexer", "slice_locs", "reindex", "intersection", "difference", "union", "map"}
 RAW_COMMON_ATTRS = {"shape", "ndim"}  # available on ndarray, Series and DataFrame alike
 
 
@@ -221,6 +228,8 @@ def opaque_getitem(ex, base, idx, node):
         c = cint(idx[0]) if idx and isinstance(idx[0], Num) else None
         if c == 0:
             return Num(sym("n"), (), "int", meta={"kind": "COUNT"})
+        # shape[k], k >= 1, of the un-normalised argument: a 1-D array / a Series has no second dimension (IndexError)
+        ex.emit("raw_use", node, what=f".shape[{c if c is not None else '?'}] (a univariate series or 1-D array has one dimension only)", value=base.meta.get("of"))
         return Num(app("dim", base.key, c if c is not None else valkey(idx[0])), (), "int")
     if is_raw(base):
         ex.emit("raw_use", node, what="[...] subscript", value=base)
@@ -1530,6 +1539,21 @@ EXT["numpy.abs"] = _elementwise(nf_abs, "abs")
 EXT["numpy.absolute"] = EXT["numpy.abs"]
 
 
+@model("numpy.reciprocal")
+def _np_reciprocal(ex, args, kwargs, node):
+    """1 / x for floating-point x.  For an integer dtype numpy computes the INTEGER reciprocal (0 for every |x| > 1): an
+    uninterpreted value of integer type, not 1 / x; a dtype that is not known stays uninterpreted as well"""
+    v = args[0]
+    if isinstance(v, (ListV, TupleV)):
+        v = _arr(ex, v, node)
+    if not isinstance(v, Num):
+        raise Undecided(f"reciprocal of {v!r}", node)
+    if v.dtype == "float":
+        return Num(NF.const(1) / ex.as_nf(v, node), v.shape, "float", v.pytype)
+    ex.emit("int_reciprocal", node, value=v)
+    return ex.mk("int_reciprocal" if v.dtype == "int" else "reciprocal_of_unknown_dtype", ex.as_nf(v, node), shape=v.shape, dtype=v.dtype or "float")
+
+
 @model("numpy.exp")
 def _np_exp(ex, args, kwargs, node):
     v = args[0]
@@ -1979,6 +2003,16 @@ def _pd_frame(ex, args, kwargs, node):
         r = Num(data.nf, shape, data.dtype, which, arr=data.arr, cond=data.cond, meta={"alias_of": data, "index_arg": index, "ctor": node})
         return r
     return OpaqueV(f"pd.{which}({valkey(data)})", {"kind": which, "data": data, "index_arg": index, "kwargs": kwargs})
+
+
+@model("pandas.Index")
+def _pd_index(ex, args, kwargs, node):
+    v = args[0] if args else kwargs.get("data")
+    if isinstance(v, Num) and v.pytype == "index":
+        return v  # an Index of an Index: the same labels
+    if isinstance(v, Num):
+        return Num(v.nf, v.shape, v.dtype, "index", arr=v.arr, cond=v.cond, meta=dict(v.meta))
+    return OpaqueV(f"pandas.Index({valkey(v)})", {"kind": "index", "of": v})
 
 
 @model("pandas.concat")
